@@ -137,6 +137,14 @@ Theorem C15_indent_line_by_line : forall p ls,
 Proof. exact indent_join_nl. Qed.
 Print Assumptions C15_indent_line_by_line.
 
+(* the block of converter outputs is the very end of the class text: text = head ++ block, the head not depending on it *)
+Theorem C15_text_ends_with_block : forall h c eqs,
+  fill h c eqs = (seg h 0 ++ py_repr_names (c_endogenous c) ++ seg h 1 ++ py_repr_names (c_exogenous c) ++ seg h 2 ++
+                  py_repr_names (c_parameters c) ++ seg h 3 ++ py_repr_names (c_errors c) ++ seg h 4 ++
+                  string_of_Z (c_lags c) ++ seg h 5 ++ string_of_Z (c_leads c) ++ seg h 6) ++ eqs.
+Proof. exact text_ends_with_block. Qed.
+Print Assumptions C15_text_ends_with_block.
+
 (* build_model: when the text executes, the class is exec(text) and CODE is that text … *)
 Theorem C15_build_model_is_exec_of_text : forall St Cls (conv : St -> symbol -> St * string) (exec : string -> exec_res Cls) st syms o h st' text c,
   build_def St conv st syms o h = (st', POk text) -> exec text = ExecOk c ->
